@@ -267,3 +267,182 @@ func init() {
 	register("dns-pool", cmdDNSPool)
 	register("replay-dns", cmdReplayDNS)
 }
+
+// ---- code -> spec: real-world lists ----
+
+type dnsMatchEntry struct {
+	ID        int    `json:"id"`
+	K         string `json:"k"`
+	White     bool   `json:"white"`
+	Important bool   `json:"important"`
+	Rewrite   bool   `json:"rewrite"`
+	Stealth   bool   `json:"stealth"`
+	Hostlevel bool   `json:"hostlevel"`
+	Fam       string `json:"fam"`
+}
+
+type dnsListEvent struct {
+	Host     string          `json:"host"`
+	Matching []dnsMatchEntry `json:"matching"`
+	Net      []int           `json:"net"`
+	Basic    int             `json:"basic"`
+	V4       []int           `json:"v4"`
+	V6       []int           `json:"v6"`
+	Matched  bool            `json:"matched"`
+}
+
+// vh drive-dnslists n=<queries> rules=<lines sampled per list> out=<trace.ndjson>
+func cmdDriveDNSLists(args []string) error {
+	m := argMap(args)
+	n := argInt(m, "n", 500)
+	per := argInt(m, "rules", 4000)
+	out, err := newNDWriter(m["out"])
+	if err != nil {
+		return err
+	}
+	defer out.close()
+	rnd := rand.New(rand.NewSource(seed()*37 + 12))
+	var lines []string
+	for _, fn := range []string{"testdata/hosts", "testdata/adguard_sdn_filter.txt"} {
+		all, err := readLines(repoDir() + "/" + fn)
+		if err != nil {
+			return err
+		}
+		start := 0
+		if len(all) > per {
+			start = rnd.Intn(len(all) - per)
+			all = all[start : start+per]
+		}
+		lines = append(lines, all...)
+	}
+	type entry struct {
+		text string
+		net  *rules.NetworkRule
+		host *rules.HostRule
+	}
+	var entries []entry
+	var hostnames []string
+	var kept []string
+	for _, l := range lines {
+		r, err := rules.NewRule(l, 1)
+		if err != nil || r == nil {
+			continue
+		}
+		switch x := r.(type) {
+		case *rules.NetworkRule:
+			entries = append(entries, entry{text: l, net: x})
+			kept = append(kept, l)
+			if s := x.Shortcut; strings.Contains(s, ".") && !strings.ContainsAny(s, "/:*") {
+				hostnames = append(hostnames, strings.Trim(s, "."))
+			}
+		case *rules.HostRule:
+			entries = append(entries, entry{text: l, host: x})
+			kept = append(kept, l)
+			hostnames = append(hostnames, x.Hostnames...)
+		}
+	}
+	// rules near the sampled hostnames so that verdict logic is exercised on top of the real data
+	for i := 0; i < 150 && len(hostnames) > 0; i++ {
+		h := hostnames[rnd.Intn(len(hostnames))]
+		t := []string{"@@||" + h + "^", "||" + h + "^$important", "@@||" + h + "^$important", "||" + h + "^$dnsrewrite=1.2.3.4", "::1 " + h,
+			"||" + h + "^$third-party", "||" + h + "^$dnstype=AAAA"}[rnd.Intn(7)]
+		r, err := rules.NewRule(t, 1)
+		if err != nil || r == nil {
+			continue
+		}
+		kept = append(kept, t)
+		switch x := r.(type) {
+		case *rules.NetworkRule:
+			entries = append(entries, entry{text: t, net: x})
+		case *rules.HostRule:
+			entries = append(entries, entry{text: t, host: x})
+		}
+	}
+	idOf := map[string]int{}
+	for i, e := range entries {
+		if _, dup := idOf[e.text]; !dup {
+			idOf[e.text] = i + 1
+		}
+	}
+	half := len(kept) / 2
+	st, err := buildStorage([][]string{kept[:half], kept[half:]})
+	if err != nil {
+		return err
+	}
+	eng := urlfilter.NewDNSEngine(st)
+	skippedBadfilter, nonEmpty := 0, 0
+	for q := 0; q < n; q++ {
+		h := hostnames[rnd.Intn(len(hostnames))]
+		switch rnd.Intn(6) {
+		case 0:
+			h = "www." + h
+		case 1:
+			h = "x" + h
+		case 2:
+			if k := strings.IndexByte(h, '.'); k > 0 && strings.Count(h, ".") > 1 {
+				h = h[k+1:]
+			}
+		}
+		if h == "" {
+			continue
+		}
+		req := rules.NewRequestForHostname(h)
+		ev := dnsListEvent{Host: h, Matching: []dnsMatchEntry{}, Net: []int{}, V4: []int{}, V6: []int{}}
+		bad := false
+		seen := map[int]bool{}
+		for _, e := range entries {
+			id := idOf[e.text]
+			if seen[id] {
+				continue
+			}
+			if e.net != nil && e.net.Match(req) {
+				seen[id] = true
+				if e.net.IsOptionEnabled(rules.OptionBadfilter) {
+					bad = true
+				}
+				ev.Matching = append(ev.Matching, dnsMatchEntry{ID: id, K: "net", White: e.net.Whitelist, Important: e.net.IsOptionEnabled(rules.OptionImportant),
+					Rewrite: e.net.DNSRewrite != nil, Stealth: e.net.IsOptionEnabled(rules.OptionStealth), Hostlevel: e.net.IsHostLevelNetworkRule(), Fam: ""})
+			}
+			if e.host != nil && e.host.Match(h) {
+				seen[id] = true
+				fam := "v6"
+				if e.host.IP.Is4() {
+					fam = "v4"
+				}
+				ev.Matching = append(ev.Matching, dnsMatchEntry{ID: id, K: "host", Fam: fam})
+			}
+		}
+		if bad {
+			skippedBadfilter++
+			continue
+		}
+		var res *urlfilter.DNSResult
+		pv := safeCall(func() { res, ev.Matched = eng.Match(h) })
+		if pv != "" {
+			ev.Basic = -1
+		} else {
+			for _, r := range res.NetworkRules {
+				ev.Net = append(ev.Net, idOf[r.RuleText])
+			}
+			if res.NetworkRule != nil {
+				ev.Basic = idOf[res.NetworkRule.RuleText]
+			}
+			for _, r := range res.HostRulesV4 {
+				ev.V4 = append(ev.V4, idOf[r.RuleText])
+			}
+			for _, r := range res.HostRulesV6 {
+				ev.V6 = append(ev.V6, idOf[r.RuleText])
+			}
+		}
+		if len(ev.Matching) > 0 {
+			nonEmpty++
+		}
+		out.write(ev)
+	}
+	summary(map[string]any{"events": out.n, "entries": len(entries), "skipped_badfilter": skippedBadfilter, "non_empty": nonEmpty})
+	return nil
+}
+
+func init() {
+	register("drive-dnslists", cmdDriveDNSLists)
+}
